@@ -170,11 +170,17 @@ void runBehaviour(Ctx &ctx, LoopPeer &peer, const QString &caseId, const QJsonAr
         ev["e"] = a;
         bool ok = true;
         QString pushId;
+        QElapsedTimer stepTimer;
+        stepTimer.start();
         // The behaviour comes from the model; if the implementation did something else an operation
         // may be impossible (no open connection, no outstanding request): end the execution there.
         if (a == "Connect") {
             SrvScript::Kind k;
-            ok = SrvScript::kindFrom(s["k"].toString(), k) && !e.c.isConnected() && e.srv.connect(k);
+            ok = SrvScript::kindFrom(s["k"].toString(), k) && !e.c.isConnected();
+            if (ok && k != SrvScript::Resumed) {
+                e.reqIds.clear();  // the server-side session is gone and with it the requests it had not answered
+            }
+            ok = ok && e.srv.connect(k);
         } else if (a == "Disconnect") {
             if (!peer.isOpen() || !e.c.isConnected()) {
                 ok = e.srv.fail("not connected");
@@ -229,6 +235,9 @@ void runBehaviour(Ctx &ctx, LoopPeer &peer, const QString &caseId, const QJsonAr
         if (!ok) {
             ctx.emit_({ { "e", "Abort" }, { "at", a }, { "why", e.srv.why } });
             break;
+        }
+        if (ctx.opt.contains("timing")) {
+            fprintf(stderr, "%s %lld ms\n", qPrintable(a), (long long)stepTimer.elapsed());
         }
         ev["o"] = e.observe(pushId);
         ctx.emit_(ev);
